@@ -13,7 +13,7 @@
 (* Amounts are small native integers (one unit each); the real-node world  *)
 (* W1u uses the same price table scaled by 10^18.                          *)
 (***************************************************************************)
-EXTENDS Props, Ledger
+EXTENDS PropsMarkets, Ledger
 
 CONSTANTS MaxBlocks,      \* blocks per behaviour
           MaxTxPerBlock,
@@ -53,14 +53,14 @@ Genesis ==
     versions |-> <<>>, deleted |-> <<>>, blocked |-> <<>>]
 
 Ev(kind, h) == [sc |-> "mc", i |-> 0, kind |-> kind, h |-> h, check |-> -1, resp |-> [code |-> 0, gas |-> 0, tags |-> <<>>, log |-> ""], hash |-> "", panic |-> ""]
-Cfg == [world |-> "W1u", stakePeriod |-> 1000, expirePeriod |-> 1000, initial |-> H0 + 1, unbond |-> 531, move |-> 177, jail |-> 354, chain |-> Chain, family |-> "ledger"]
+GenesisCfg == [world |-> "W1u", stakePeriod |-> 1000, expirePeriod |-> 1000, initial |-> H0 + 1, unbond |-> 531, move |-> 177, jail |-> 354, chain |-> Chain, family |-> "ledger"]
 
 Init ==
    /\ st = Genesis
    /\ disk = Genesis
    /\ ev = Ev("Init", H0)
    /\ hist = [accepted |-> {}, seen |-> <<>>, cValid |-> TRUE, cBase |-> BaseTotal(Genesis), cEmission |-> Genesis.emission,
-              cfg |-> Cfg, unit |-> 1, sc |-> "mc"]
+              cfg |-> GenesisCfg, unit |-> 1, sc |-> "mc"]
    /\ phase = "idle"
    /\ scn = <<>>
    /\ sent = <<>>
@@ -76,7 +76,7 @@ Mature(s, h) == [CreditAll(s, SelectSeq(s.frozen, LAMBDA f : f.due = h /\ f.to =
 Begin ==
    /\ phase = "idle" /\ cnt.blocks < MaxBlocks
    /\ st' = [Mature(st, st.h + 1) EXCEPT !.h = st.h + 1, !.rewardPool = Zero]
-   /\ ev' = Ev("BeginBlock", st.h + 1)
+   /\ ev' = Ev("BeginBlock", st.h + 1) @@ [begin |-> [time |-> 0, hour |-> 0, absent |-> <<>>, evidence |-> <<>>, present |-> <<"v1">>]]
    /\ phase' = "begun"
    /\ scn' = Append(scn, [op |-> "begin"])
    /\ cnt' = [cnt EXCEPT !.inBlock = 0]
@@ -192,6 +192,10 @@ P_C04 == [][C04_Step]_mvars
 P_C05 == [][C05_Step]_mvars
 P_C06 == [][C06_Step]_mvars
 P_C26 == [][C26_Step]_mvars
+\* the parts of C16 (Lock: freeze until the due block, maturity at the due block only, nothing leaves early) and of C21
+\* (RedeemCheck: due block, chain, proof, single use, payer) that the ledger family's actions reach
+P_C16 == [][C16_Step]_mvars
+P_C21 == [][C21_Step]_mvars
 P_C27 == [][C27_Step]_mvars
 TypeOK == /\ phase \in {"idle", "begun", "ended"}
           /\ C02_State(st)
